@@ -517,6 +517,7 @@ package datalog
 //@ modifies *syms, spare(*syms)
 //@ chan c yields x: x.error != nil || (x.MatchedVariables != nil && bindingsWF(x.MatchedVariables))
 //@ chan c yields x: tableGrown(*syms, old(*syms))
+//@ chan c sends x: x.error == nil ==> (forall q int :: { predicates[q] } 0 <= q && q < len(predicates) ==> unifiesUpTo(x.MatchedVariables, predicates[q], (*facts)[indexes[q]].Predicate, len(predicates[q].Terms)))
 //@ chan c final_if x: x.error != nil
 //@ chan c closes
 //@ loop 0 modifies current, indexes, elems(indexes), *syms, spare(*syms)
@@ -540,6 +541,10 @@ package datalog
 //@ loop 2 invariant forall j int :: { indexes[j] } 0 <= j && j < len(indexes) ==> 0 <= indexes[j] && (len(*facts) > 0 ==> indexes[j] < len(*facts))
 //@ loop 2 invariant arity: len(predicates) > 0 ==> len(*facts) > 0 && (forall i int :: { predicates[i] } 0 <= i && i < len(predicates) ==> len((*facts)[indexes[i]].Predicate.Terms) == len(predicates[i].Terms))
 //@ loop 3 invariant 0 <= j && vars != nil && partialBindingsWF(vars)
+//@ loop 2 invariant unified: forall q int :: { predicates[q] } 0 <= q && q < #i ==> unifiesUpTo(vars, predicates[q], (*facts)[indexes[q]].Predicate, len(predicates[q].Terms))
+//@ loop 3 invariant earlier: forall q int :: { predicates[q] } 0 <= q && q < i ==> unifiesUpTo(vars, predicates[q], (*facts)[indexes[q]].Predicate, len(predicates[q].Terms))
+//@ loop 3 invariant current: unifiesUpTo(vars, pred, fact.Predicate, j)
+//@ loop 3 invariant same: pred == predicates[i] && fact == (*facts)[indexes[i]] && 0 <= i && i < len(predicates)
 //@ loop 4 invariant !sentFinal(c) && tableGrown(*syms, old(*syms)) && tableGrownInLoop(*syms, pre(*syms)) && complete_vars != nil && bindingsWF(complete_vars)
 
 //@ func combine(variables MatchedVariables, predicates []Predicate, expressions []Expression, facts *FactSet, syms *SymbolTable) (res chan)
